@@ -696,7 +696,7 @@ def gen_known_history_cases():
     return out
 
 
-MUTATING = ("UNINCLUDEN ", "INCN ", "ADD ", "ADDSPEC ", "MADDSPEC ", "ALTERSPEC ", "ALIAS ", "HIDE ", "UNHIDE ", "FRAGATTR ", "INC ", "RENAME ", "MOVE ", "DELETE ",
+MUTATING = ("ALTLINCOM ", "ALTPOLYNOM ", "ALTRECIP ", "UNINCLUDEN ", "INCN ", "ADD ", "ADDSPEC ", "MADDSPEC ", "ALTERSPEC ", "ALIAS ", "HIDE ", "UNHIDE ", "FRAGATTR ", "INC ", "RENAME ", "MOVE ", "DELETE ",
             "ALTERAFFIX ", "NSALTER ", "PUTS ", "PUTC ", "REF ", "UNINCLUDE ")
 STALE_OPS = ("HIDE ", "UNHIDE ", "FRAGATTR ", "ALTERAFFIX ", "NSALTER ")
 
@@ -822,6 +822,112 @@ def gen_include_tree_cases(rng, n_random):
             if rng.random() < 0.5:
                 cmds.append("MFLUSH")
         mk(cmds)
+    return out
+
+
+def gen_partial_alter_cases(rng, n_random):
+    """entries with complex scalar parameters, flushed, then PARTIAL alters through the type-specific calls
+    (gd_alter_lincom/clincom, gd_alter_polynom/cpolynom, gd_alter_recip/crecip) with NULL groups / 'keep' values, real and
+    complex API, every group combination; flush, reopen, compare"""
+    out = []
+    cnt = [0]
+
+    def mk(cmds):
+        c = Case("a%d" % cnt[0])
+        cnt[0] += 1
+        c.pretty = False
+        c.pure = False
+        c.phase2 = True
+        c.cmds += ["OPEN 0"] + cmds
+        out.append(c)
+    H = lambda x: "%016x" % dbits(x)
+    IN = [hx(b"in0"), hx(b"in1"), hx(b"in2")]
+    vals = [1.5, -2.25, 3.0, 0.0, 7.5, 0.125]
+
+    def grp(tag, k, cplx_im):
+        return "%s %d %s" % (tag, k, " ".join("%s %s" % (H(rng.choice(vals[:3])), H(rng.choice(vals)) if cplx_im else H(0.0)) for _ in range(k)))
+    for n in (1, 2, 3):
+        for mim, bim in ((True, True), (True, False), (False, True), (False, False)):
+            add = "ADD LINCOM 0 - %s %d 1 %s" % (hx(b"l"), n, " ".join("%s %s %s %s %s" % (IN[i], H(1.0 + i), H(2.0 if mim else 0.0), H(3.0 + i), H(4.0 if bim else 0.0)) for i in range(n)))
+            for api in (0, 1):
+                for gm, gb, gi in ((1, 0, 0), (0, 1, 0), (0, 0, 1), (1, 1, 0), (1, 0, 1), (0, 1, 1)):
+                    for new_im in ((False,) if api == 0 else (False, True)):
+                        alt = "ALTLINCOM %s %d 0 I %d %s %s %s" % (hx(b"l"), api, n if gi else 0, " ".join(hx(b"x%d" % i) for i in range(n)) if gi else "",
+                                                                 grp("M", n if gm else 0, new_im), grp("B", n if gb else 0, new_im))
+                        mk([add, "MFLUSH", " ".join(alt.split())])
+    for order in (1, 2, 3):
+        for im in (True, False):
+            add = "ADD POLYNOM 0 - %s %s %d 1 %s" % (hx(b"p"), IN[0], order, " ".join("%s %s" % (H(1.0 + i), H(0.5) if (im and i == 0) else H(0.0)) for i in range(order + 1)))
+            for api in (0, 1):
+                mk([add, "MFLUSH", "ALTPOLYNOM %s %d 0 %s A 0" % (hx(b"p"), api, hx(b"newin"))])
+                mk([add, "MFLUSH", "ALTPOLYNOM %s %d 0 - A %d %s" % (hx(b"p"), api, order + 1, " ".join("%s %s" % (H(2.0 + i), H(0.25) if (api and i == order) else H(0.0)) for i in range(order + 1)))])
+                mk([add, "MFLUSH", "ALTPOLYNOM %s %d %d - A 0" % (hx(b"p"), api, max(1, order - 1))])
+    for im in (True, False):
+        add = "ADD RECIP 0 - %s %s 1 %s %s" % (hx(b"r"), IN[0], H(1.5), H(2.5) if im else H(0.0))
+        for api in (0, 1):
+            mk([add, "MFLUSH", "ALTRECIP %s %d %s %s %s" % (hx(b"r"), api, hx(b"newin"), H(0.0), H(0.0))])
+            mk([add, "MFLUSH", "ALTRECIP %s %d - %s %s" % (hx(b"r"), api, H(4.0), H(1.0) if api else H(0.0))])
+    return out
+
+
+def gen_reference_cases(rng, n_random):
+    """reference-field bookkeeping in multi-fragment trees: RAW fields in the root and in included fragments (one or two
+    levels), the reference field in any of them (first RAW added, or set with gd_reference), flushed or not; then
+    gd_delete / gd_rename / gd_move of the reference field or of another RAW field, or gd_uninclude; flush, reopen,
+    compare gd_reference() and the root's /REFERENCE"""
+    out = []
+    cnt = [0]
+    for _ in range(n_random):
+        c = Case("r%d" % cnt[0])
+        cnt[0] += 1
+        c.pretty = False
+        c.pure = False
+        c.phase2 = True
+        cmds = ["OPEN 0"]
+        nfr = rng.choice([2, 3, 3])
+        parents = [0] + ([rng.choice([0, 1])] if nfr == 3 else [])
+        files = [b"sa", b"sb"]
+        for i, par in enumerate(parents):
+            cmds.append("INC %d %s - - -" % (par, hx(files[i])))
+        pool = [b"a", b"b", b"c", b"d", b"e", b"m", b"z", b"A", b"Z", b"aa", b"zz"]
+        rng.shuffle(pool)
+        raws = []
+        order = []
+        for fr in range(nfr):
+            for _k in range(rng.randint(0 if fr == 0 else 1, 2)):
+                order.append(fr)
+        rng.shuffle(order)
+        for fr in order:
+            nm = pool.pop()
+            raws.append((nm, fr))
+            cmds.append("ADD RAW %d - %s 088 1" % (fr, hx(nm)))
+        if rng.random() < 0.4 and raws:
+            cmds.append("REF %s" % hx(rng.choice(raws)[0]))
+        if rng.random() < 0.7:
+            cmds.append("MFLUSH")
+        for _k in range(rng.randint(1, 2)):
+            if not raws:
+                break
+            tgt = raws[0] if rng.random() < 0.6 else rng.choice(raws)
+            k = rng.random()
+            if k < 0.45:
+                cmds.append("DELETE %s %x" % (hx(tgt[0]), rng.choice([0, 8])))
+                raws.remove(tgt)
+            elif k < 0.65:
+                nn = pool.pop() if pool else b"nn"
+                cmds.append("RENAME %s %s %x" % (hx(tgt[0]), hx(nn), rng.choice([0, 2])))
+                raws[raws.index(tgt)] = (nn, tgt[1])
+            elif k < 0.85:
+                to = rng.choice([f_ for f_ in range(nfr) if f_ != tgt[1]])
+                cmds.append("MOVE %s %d %x" % (hx(tgt[0]), to, rng.choice([0, 2])))
+                raws[raws.index(tgt)] = (tgt[0], to)
+            else:
+                cmds.append("UNINCLUDEN %s" % hx(rng.choice(files[:nfr - 1])))
+                break
+            if rng.random() < 0.3:
+                cmds.append("MFLUSH")
+        c.cmds += cmds[0:1] + cmds[1:]
+        out.append(c)
     return out
 
 
@@ -1269,6 +1375,8 @@ def main():
     cases += gen_history_cases()
     cases += gen_known_history_cases()
     cases += gen_include_tree_cases(rng, 60 if not chk.thorough else 1500)
+    cases += gen_partial_alter_cases(rng, 0)
+    cases += gen_reference_cases(rng, 250 if not chk.thorough else 4000)
     for i in range(120 if not chk.thorough else 1500):
         cases.append(gen_xfrag_case(g, "x%d" % i))
     # known-finding witnesses (replayed on every run)
